@@ -29,6 +29,7 @@ def check(repo, tier="quick"):
     res.rule("C22.c", "even field counts: every generator behind progressive_to_pictures yields each source frame a second time exactly when the source is interlaced (so interlaced sources give an even number of fields and no frame is dropped by the pairing); the self-contained generators double their count exactly when pictures are fields")
     res.rule("C22.d", "at least one picture: every generator has an unconditional first yield (or a loop over a count that its callers keep positive); the decorator order is xyz_to_native(progressive_to_pictures(generator))")
 
+    res.rule("C22.g", "frame coverage: the frames the piped generators hand on are (frame_height, frame_width, 3) arrays of the configured frame size -- the sprite generators allocate np.zeros((frame_height, frame_width, 3)) from video_parameters' own keys and yield that array; linear_ramps repeats each of its N ramp rows ceil(frame_height / N) times (N taken from the ramp array's allocation) before cropping to frame_height, so the crop never comes up short")
     res.rule("C22.f", "one picture per iteration: every loop of the module that yields pictures yields on every iteration -- a yield (or a nested loop that itself yields unconditionally) is a top-level statement of the loop body, and the loop contains no break, continue or return -- so the counts established by C22.b/c are the numbers of pictures actually produced")
     res.rule("C22.e", "range provenance: every component from_xyz returns is the direct result of float_to_int_clipped with that component kind's offset/excursion; float_to_int_clipped clips the rounded integer array to [0, 2**intlog2(excursion+1) - 1], the bit depth video_depth derives from the same excursion; mid_gray and white_noise take shape and value range of each component from that component's own entry of compute_dimensions_and_depths")
     m = repo.mod(PG)
@@ -37,6 +38,8 @@ def check(repo, tier="quick"):
     rule_c(res, m)
     rule_e(res, repo, m)
     rule_f(res, m)
+    rule_g(res, m)
+    res.floor("C22.g", 3)
     res.floor("C22.f", 8)
     res.floor("C22.e", 9)
     res.floor("C22.a", 4)
@@ -392,3 +395,55 @@ def rule_f(res, m):
             ok = not jumps and yields_every_iteration(loop) and not loop.orelse
             res.check(ok, "C22.f", "%s:loop%d:yields-every-iteration" % (fn.name, k), "%s:%s" % (m.rel, fn.name), "the loop over `%s` must yield on every iteration (yield at the top level of its body, no break/continue/return%s): otherwise fewer pictures than counted are produced, e.g. an odd number of fields" % (short(loop.iter if isinstance(loop, ast.For) else loop.test, 50), "; found %s at line %d" % (type(jumps[0]).__name__.lower(), jumps[0].lineno) if jumps else ""), by="unconditional yield, no early exit")
     return n
+
+
+def rule_g(res, m):
+    def key_of(fn, name, vp):
+        v = _single_def(fn, name)
+        if isinstance(v, ast.Subscript) and dotted(v.value) == vp:
+            return const_str(v.slice)
+        return None
+
+    for gname in ("static_sprite", "moving_sprite"):
+        fn = m.funcs.get(gname)
+        if fn is None:
+            raise AnalysisError("anchor vanished: picture_generators.%s" % gname)
+        vp = fn.args.args[0].arg
+        ys = [y for y in _yields(fn) if isinstance(y, ast.Yield)]
+        names = set(dotted(y.value) for y in ys)
+        ok = False
+        if len(names) == 1 and None not in names:
+            pic = names.pop()
+            defs = [a.value for a in ast.walk(fn) if isinstance(a, ast.Assign) and any(isinstance(t, ast.Name) and t.id == pic for t in a.targets)]
+            if len(defs) == 1:
+                e = pmatch("np.zeros((X_h, X_w, 3))", defs[0])
+                ok = e is not None and key_of(fn, e["X_h"], vp) == "frame_height" and key_of(fn, e["X_w"], vp) == "frame_width"
+        res.check(ok, "C22.g", "%s:frame-allocated-at-configured-size" % gname, "%s:%s" % (m.rel, gname), "%s must yield the array it allocated as np.zeros((frame_height, frame_width, 3)) with both taken from video_parameters' own entries" % gname, by="np.zeros((vp['frame_height'], vp['frame_width'], 3))")
+    fn = m.funcs.get("linear_ramps")
+    if fn is None:
+        raise AnalysisError("anchor vanished: picture_generators.linear_ramps")
+    vp = fn.args.args[0].arg
+    where = "%s:linear_ramps" % m.rel
+    ys = [y for y in _yields(fn) if isinstance(y, ast.Yield)]
+    names = set(dotted(y.value) for y in ys)
+    ok = False
+    found = ""
+    if len(names) == 1 and None not in names:
+        frame = _single_def(fn, names.pop())
+        e = pmatch("np.repeat(X_src, E_k, axis=0)[:X_h, :, :]", frame) if frame is not None else None
+        if e is not None and key_of(fn, e["X_h"], vp) == "frame_height":
+            h = e["X_h"]
+            k = frame.value.args[1]
+            if isinstance(k, ast.Name):
+                k = _single_def(fn, k.id) or k
+            # N: rows of the ramp array the source derives from
+            n_rows = None
+            for a in ast.walk(fn):
+                if isinstance(a, ast.Assign) and isinstance(a.value, ast.Call) and dotted(a.value.func) == "np.zeros" and a.value.args and isinstance(a.value.args[0], ast.Tuple) and len(a.value.args[0].elts) == 3 and isinstance(a.value.args[0].elts[0], ast.Constant):
+                    n_rows = a.value.args[0].elts[0].value
+                    w_ok = key_of(fn, dotted(a.value.args[0].elts[1]) or "", vp) == "frame_width"
+            if isinstance(n_rows, int) and n_rows > 0:
+                forms = ["(%s + %d) // %d" % (h, n_rows - 1, n_rows), "(%d + %s) // %d" % (n_rows - 1, h, n_rows), "-(-%s // %d)" % (h, n_rows), "(%s - 1) // %d + 1" % (h, n_rows), "1 + (%s - 1) // %d" % (h, n_rows)]
+                ok = w_ok and norm(k) in [norm(ast.parse(f).body[0].value) for f in forms]
+                found = "repeat count %s for %d ramp rows" % (short(k, 40), n_rows)
+    res.check(ok, "C22.g", "linear_ramps:bands-cover-the-frame", where, "linear_ramps must repeat its N ramp rows ceil(frame_height / N) times (e.g. (height + N - 1) // N) before cropping to frame_height rows, with the ramps frame_width wide (%s): a smaller count leaves the frame short for heights that N does not divide" % (found or "shape not recognised"), by="np.repeat(ramps, ceil(height / N), axis=0)[:height]")
